@@ -1,4 +1,183 @@
-import ClientGoVerif.Model.Mvcc
+/-
+  C12 — the mock TiKV against the reference MVCC model.  Property theorems about `Model/Mvcc.lean`
+  (the model is tied to /repo's mocktikv by the method-level differential of checks/c12.py, and, in vivo,
+  by the store replay of every transactional check).  Helper lemmas: Proofs/Mvcc*.lean.
+
+  Standing shape assumptions, stated as hypotheses where used:
+    KvSorted s.kv   keys strictly ascending (leveldb order);  Desc ws  versions strictly descending;
+    WellTimed ws    rollback records sit at their start ts, data records above it (distinct timestamps).
+-/
+import ClientGoVerif.Proofs.MvccInv
 namespace CGV.Props.C12
-theorem placeholder : True := trivial
+open CGV CGV.Mvcc
+
+/-! ## reads -/
+
+/-- a read at `ts` sees the newest commit at or below it (a delete reads as absent) -/
+theorem read_sees_newest_le (e : Entry) (k : Bytes) (ts : Nat) (rs : List Nat) (hd : Desc e.writes) :
+    getValue e k ts false rs = .ok ((newestData e.writes ts).bind fun w => if w.vt == .delete then none else some w) ∧
+      NewestLE e.writes ts (newestData e.writes ts) := by
+  refine ⟨?_, newestData_spec e.writes ts hd⟩
+  simp [getValue, firstVisible_eq]
+
+/-- … or reports the blocking lock: an error is always the lock on the key, and that lock does block the read -/
+theorem read_error_is_blocking_lock (e : Entry) (k : Bytes) (ts : Nat) (rs : List Nat) (err : KErr)
+    (h : getValue e k ts true rs = .error err) :
+    ∃ l, e.lock = some l ∧ err = lockErr l k ∧ l.startTS ≤ ts ∧ l.op ≠ .lock ∧ l.op ≠ .pessimisticLock ∧
+      ¬ rs.contains l.startTS = true := by
+  simp only [getValue, if_true] at h
+  cases hl : e.lock with
+  | none => rw [hl] at h; simp at h
+  | some l =>
+    rw [hl] at h
+    simp only [] at h
+    refine ⟨l, rfl, ?_⟩
+    cases hc : l.check ts k rs with
+    | ok t => rw [hc] at h; simp at h
+    | error e' =>
+      rw [hc] at h
+      have he : e' = err := by injection h
+      subst he
+      simp [Lock.check] at hc
+      by_cases h1 : (ts < l.startTS ∨ l.op = Op.lock) ∨ l.op = Op.pessimisticLock
+      · rw [if_pos h1] at hc; cases hc
+      · rw [if_neg h1] at hc
+        by_cases h2 : ts = maxU64 ∧ l.primary = k
+        · rw [if_pos h2] at hc; cases hc
+        · rw [if_neg h2] at hc
+          by_cases h3 : l.startTS ∈ rs
+          · rw [if_pos h3] at hc; cases hc
+          · rw [if_neg h3] at hc
+            injection hc with hc
+            simp only [not_or] at h1
+            exact ⟨hc.symm, by omega, h1.1.2, h1.2, by simpa using h3⟩
+
+/-- a scan equals the per-key gets of its range (cut at the limit) -/
+theorem scan_eq_gets (s : Store) (a b : Bytes) (limit ts : Nat) (si : Bool) (rs : List Nat) :
+    scan s a b limit ts si rs =
+      ((s.kv.filter fun p => inRange a b p.1).filterMap fun p => pairOf p.1 p.2 ts si rs).take limit :=
+  Mvcc.scan_eq_gets s a b limit ts si rs
+
+/-- a reverse scan is the mirror image of the scan -/
+theorem reverse_scan_is_mirror (s : Store) (a b : Bytes) (limit ts : Nat) (si : Bool) (rs : List Nat)
+    (hl : (s.kv.filter fun p => inRange a b p.1).length ≤ limit) :
+    reverseScan s a b limit ts si rs = (scan s a b limit ts si rs).reverse :=
+  reverseScan_mirror s a b limit ts si rs hl
+
+/-! ## repeating a command whose effect is in place: same answer, nothing written -/
+
+theorem idempotent_commit_committed (s : Store) (k : Bytes) (T C : Nat) (c : Write)
+    (hl : (getEntry s.kv k).lock.filter (·.startTS == T) = none)
+    (hc : txnCommitInfo (getEntry s.kv k).writes T = some c) (hv : c.vt ≠ .rollback) :
+    commitKey s k T C = .ok [] := commitKey_committed s k T C c hl hc hv
+
+theorem idempotent_rollback_rolled_back (s : Store) (k : Bytes) (T : Nat) (c : Write)
+    (hl : (getEntry s.kv k).lock.filter (·.startTS == T) = none)
+    (hc : txnCommitInfo (getEntry s.kv k).writes T = some c) (hv : c.vt = .rollback) :
+    rollbackKey s k T = .ok [] := rollbackKey_rolledBack s k T c hl hc hv
+
+theorem idempotent_prewrite_own_lock (s : Store) (r : PrewriteReq) (m : Mutation) (a : PAction) (l : Lock)
+    (hl : (getEntry s.kv m.key).lock = some l) (hs : l.startTS = r.startTS) (hp : l.op ≠ .pessimisticLock) :
+    prewriteMutation s r m a = .ok [] := prewriteMutation_ownLock s r m a l hl hs hp
+
+theorem idempotent_check_status_committed (s : Store) (p : Bytes) (T caller cur : Nat) (rb rp : Bool) (c : Write)
+    (hl : (getEntry s.kv p).lock.filter (·.startTS == T) = none)
+    (hc : txnCommitInfo (getEntry s.kv p).writes T = some c) (hv : c.vt ≠ .rollback) :
+    checkTxnStatus s p T caller cur rb rp = (s, { commitTS := c.commitTS }) :=
+  checkTxnStatus_committed s p T caller cur rb rp c hl hc hv
+
+theorem idempotent_check_status_rolled_back (s : Store) (p : Bytes) (T caller cur : Nat) (rb rp : Bool) (c : Write)
+    (hl : (getEntry s.kv p).lock.filter (·.startTS == T) = none)
+    (hc : txnCommitInfo (getEntry s.kv p).writes T = some c) (hv : c.vt = .rollback) :
+    checkTxnStatus s p T caller cur rb rp = (s, {}) :=
+  checkTxnStatus_rolledBack s p T caller cur rb rp c hl hc hv
+
+theorem idempotent_resolve (s : Store) (a b : Bytes) (T C : Nat)
+    (h : ∀ p ∈ s.kv, inRange a b p.1 = true → ∀ l, p.2.lock = some l → l.startTS ≠ T) :
+    resolveLock s a b T C = s := resolveLock_noLock s a b T C h
+
+/-! ## late prewrites are rejected; every rollback leaves the marker that makes it so -/
+
+theorem late_prewrite_after_rollback_rejected (s : Store) (r : PrewriteReq) (m : Mutation) (act : PAction)
+    (hd : Desc (getEntry s.kv m.key).writes)
+    (hm : ∃ w ∈ (getEntry s.kv m.key).writes, w.vt = .rollback ∧ w.commitTS = r.startTS)
+    (hown : ∀ l, (getEntry s.kv m.key).lock = some l → l.startTS = r.startTS → l.op = .pessimisticLock) :
+    ∃ e, prewriteMutation s r m act = .error e := prewrite_after_rollback_rejected s r m act hd hm hown
+
+theorem late_prewrite_after_commit_rejected (s : Store) (r : PrewriteReq) (m : Mutation) (act : PAction)
+    (hd : Desc (getEntry s.kv m.key).writes) (hwt : WellTimed (getEntry s.kv m.key).writes)
+    (hnolock : (getEntry s.kv m.key).lock = none)
+    (hm : ∃ w ∈ (getEntry s.kv m.key).writes, w.vt ≠ .rollback ∧ w.startTS = r.startTS) :
+    ∃ e, prewriteMutation s r m act = .error e := by
+  cases h : prewriteMutation s r m act with
+  | error e => exact ⟨e, rfl⟩
+  | ok acts =>
+    obtain ⟨w, hw, _, hst⟩ := hm
+    exact absurd hst (prewrite_lock_implies_fresh s r m act acts hd hwt hnolock h w hw)
+
+theorem rollback_leaves_marker_until_gc (s s' : Store) (k : Bytes) (T : Nat) (hs : KvSorted s.kv)
+    (hr : rollback s [k] T = (s', none))
+    (hpre : ∀ w ∈ (getEntry s.kv k).writes, w.vt = .rollback → w.startTS = T → w.commitTS = T) :
+    HasMarker (getEntry s'.kv k) T := rollback_leaves_marker s s' k T hs hr hpre
+
+/-! ## GC -/
+
+theorem gc_refuses_lock_le_safepoint (s : Store) (a b : Bytes) (sp : Nat)
+    (h : ∃ p ∈ s.kv, inRange a b p.1 = true ∧ ∃ l, p.2.lock = some l ∧ l.startTS ≤ sp) :
+    ∃ k, gc s a b sp = (s, some k) := gc_refuses s a b sp h
+
+theorem gc_preserves_reads_ge_safepoint (s s' : Store) (a b : Bytes) (sp ts : Nat) (k : Bytes)
+    (hgc : gc s a b sp = (s', none)) (hs : KvSorted s.kv) (hd : ∀ p ∈ s.kv, Desc p.2.writes) (hts : sp ≤ ts) :
+    firstVisible (getEntry s'.kv k).writes ts = firstVisible (getEntry s.kv k).writes ts ∧
+      (getEntry s'.kv k).lock = (getEntry s.kv k).lock := gc_reads s s' a b sp ts k hgc hs hd hts
+
+/-! ## never both committed and rolled back
+
+Full statement (all reachable states of command sequences satisfying the property's preconditions): -/
+def StoreNoMix (s : Store) : Prop := ∀ p ∈ s.kv, NoMix p.2.writes
+/-- `cmds` ranges over the command alphabet of the driver (`MvccProto.exec`); `Pre` = the property's preconditions
+    (pairwise distinct start/commit timestamps, no pessimistic-lock request after the transaction finished on the key).
+    NOT proved as a whole yet: the per-command assembly over `exec` is missing; the kernel below is what is proved. -/
+def not_both_committed_and_rolled_back_full (run : List String → Store) (Pre : List String → Prop) : Prop :=
+  ∀ cmds, Pre cmds → StoreNoMix (run cmds)
+
+/-- proved kernel: the only acts that write a record — committing a lock, rolling back a lock, writing a bare
+    marker — keep "no transaction has both a rollback and a data record on the key", provided the transaction has
+    no record there yet; and a prewrite that takes a lock guarantees exactly that freshness. -/
+theorem not_both_committed_and_rolled_back_partial (e : Entry) (l : Lock) (k : Bytes) (T C : Nat)
+    (hn : NoMix e.writes) (hf : Fresh e.writes T) :
+    NoMix ((commitLock l k T C).foldl entryAct e).writes ∧
+      NoMix ((rollbackLock k T).foldl entryAct e).writes ∧
+      NoMix (([rollbackMarker k T]).foldl entryAct e).writes :=
+  ⟨commitLock_NoMix e l k T C hn hf, (rollback_NoMix e k T hn hf).1, (rollback_NoMix e k T hn hf).2⟩
+
+theorem prewrite_lock_only_when_fresh (s : Store) (r : PrewriteReq) (m : Mutation) (act : PAction) (acts : List Act)
+    (hd : Desc (getEntry s.kv m.key).writes) (hwt : WellTimed (getEntry s.kv m.key).writes)
+    (hnolock : (getEntry s.kv m.key).lock = none) (hok : prewriteMutation s r m act = .ok acts) :
+    Fresh (getEntry s.kv m.key).writes r.startTS := prewrite_lock_implies_fresh s r m act acts hd hwt hnolock hok
+
+/-! ## the three definitional points (the reference is TiKV's) — visible as lemmas -/
+
+/-- a pessimistic lock request over the transaction's own prewrite lock is refused -/
+theorem pessimistic_over_own_prewrite_refused (s : Store) (wf : WaitFor) (r : PLReq) (m : Mutation) (l : Lock)
+    (hret : ¬ (r.lockOnlyIfExists = true ∧ r.returnValues = false))
+    (hl : (getEntry s.kv m.key).lock = some l) (hs : l.startTS = r.startTS) (hp : l.op ≠ .pessimisticLock) :
+    plMutation s wf r m = (some (.abort "own-prewrite-lock"), none, [], wf) := by
+  have h1 : (r.lockOnlyIfExists && !r.returnValues) = false := by
+    cases h2 : r.lockOnlyIfExists <;> cases h3 : r.returnValues <;> simp_all
+  simp [plMutation, h1, hl, hs, hp]
+
+/-- committing a leftover pessimistic lock changes no data: the lock goes, no record is written -/
+theorem commit_pessimistic_lock_no_data (l : Lock) (k : Bytes) (T C : Nat) (h : l.op = .pessimisticLock) :
+    commitLock l k T C = [Act.delLock k] := by simp [commitLock, h]
+
+/-! ## non-vacuity: the hypotheses are satisfiable by a non-trivial store -/
+example : Desc [⟨.put, 10, 20, [1]⟩, ⟨.rollback, 5, 5, []⟩] ∧
+    WellTimed [⟨.put, 10, 20, [1]⟩, ⟨.rollback, 5, 5, []⟩] ∧ NoMix [⟨.put, 10, 20, [1]⟩, ⟨.rollback, 5, 5, []⟩] ∧
+    Fresh [⟨.put, 10, 20, [1]⟩, ⟨.rollback, 5, 5, []⟩] 7 := by
+  refine ⟨⟨by decide, trivial⟩, ?_, ?_, ?_⟩
+  · intro w hw; simp at hw; rcases hw with rfl | rfl <;> simp
+  · intro w1 h1 w2 h2; simp at h1 h2; rcases h1 with rfl | rfl <;> rcases h2 with rfl | rfl <;> simp
+  · intro w hw; simp at hw; rcases hw with rfl | rfl <;> simp
+
 end CGV.Props.C12
